@@ -34,16 +34,16 @@ Definition fuel_for (ts : list ptok) : nat := 40 + 20 * length ts.
 Definition oz_eqb := option_eqb Z.eqb.
 Definition olz_eqb := option_eqb zlist_eqb.
 
-(* finding classes (open): 1 = relational operators associate to the right
+(* finding classes (open; class 1, right-associative relational operators, was repaired in /repo e62d085):
    2 = hex / legacy-octal literal >= 2^63   3 = \\uD800-\\uDFFF escapes become U+FFFD
    (4 = octal escape above \\377 and 5 = backslash + LS/PS were repaired in /repo 96a7b64)
-   11, 12, 14 = pinned witnesses (comment with line terminator, numeric property name,
-   detached regexp flags).  Classes 6-10 and 13 (no-in relational operand) were repaired in
+   11, 12, 14, 15 = pinned witnesses (comment with line terminator, numeric property name,
+   detached regexp flags, Function-constructor parameter text ending in a // comment).  Classes 6-10 and 13 (no-in relational operand) were repaired in
    /repo; their witnesses are now CProg regression cases that accept only the ES5 tree. *)
 Definition verdict (c : case) : Z * Z :=
   match c with
   | CExpr toks gen obs =>
-      judge otree_eqb obs (option_map enc (parse_expr (fuel_for toks) toks)) (Some gen) 1
+      judge otree_eqb obs (option_map enc (parse_expr (fuel_for toks) toks)) (Some gen) 0
   | CNum text obs => judge oz_eqb obs (num_model text) (num_spec text) 2
   | CStr body obs => judge olz_eqb obs (sv sv_model body) (sv sv_spec body) 3
   | CProg gen obs => judge otree_eqb obs (Some gen) (Some gen) 0
